@@ -1,8 +1,8 @@
 CONSTANTS
-  Rotations = {0, 20}
+  Rotations = {0, 22}
   Widths = {1}
   TransportSets = {{"grpc"}, {"rest"}, {"grpc", "rest"}}
-  Namings = {"plain", "kw"}
+  Namings = {"kw", "svchost"}
   NSvcs = {1, 2}
   ReqPkgs = {"own"}
   Flattens = {FALSE}
